@@ -588,6 +588,29 @@ func features(c caseT) []string {
 			set["body-"+a.K] = true
 		}
 	}
+	for k, v := range c.Vars {
+		if !c.operandLater(k) {
+			continue
+		}
+		set["commaok-before-operand"] = true
+		if c.Mode == "dir" {
+			file := func(code string) int {
+				for i, f := range c.mainFiles() {
+					for _, cd := range f.Codes {
+						if cd == code {
+							return i
+						}
+					}
+				}
+				return -1
+			}
+			for j, w := range c.Vars {
+				if w.Kind == "mapvar" && w.Names[0] == v.Recv && file(fmt.Sprintf("v%d", j)) > file(fmt.Sprintf("v%d", k)) {
+					set["commaok-operand-in-later-file"] = true
+				}
+			}
+		}
+	}
 	if c.Inits > 0 {
 		set["init-func"] = true
 	}
